@@ -676,7 +676,7 @@ def run_property(ctx, focus, size_quick, size_thorough, kinds=("seg", "grp", "zs
             ctx.extra.setdefault("other_property_clauses_seen", {}).setdefault(clause, 0)
             ctx.extra["other_property_clauses_seen"][clause] += 1
     ctx.rule = ("a seeded share of the reachable states of the bounded reference model (TLC graph dump; quick: 2-6 %, thorough: "
-                "8 % on two versions per concretisation) x every operation of the alphabet, "
+                "6 % on two versions per concretisation) x every operation of the alphabet, "
                 "each reached by the shortest path and by random alternative paths, executed on real elements "
                 "(Segment PID with fields, Group ADT_A01_INSURANCE with segments; TOLERANT and STRICT); identical "
                 "(pre, op, outcome, post, views) observations are judged once; non-trivial = distinct (operation, "
